@@ -107,11 +107,25 @@ pub fn run(tier: Tier, seed: u64, replay: Option<String>) -> i32 {
         let v: Value = serde_json::from_str(&std::fs::read_to_string(&path).expect("replay")).expect("json");
         let base: Vec<String> = v["sources"].as_array().unwrap().iter().map(|s| s["text"].as_str().unwrap().to_string()).collect();
         let var: Vec<String> = v["variant_sources"].as_array().unwrap().iter().map(|s| s.as_str().unwrap().to_string()).collect();
+        // (several rounds and both backends: a dependence on a per-process random state does
+        // not show in every pair of runs)
         let a = comp::compile_rasn(&base, &Cfg::default());
-        let b = comp::compile_rasn(&var, &Cfg::default());
-        ctx.case("replay", true);
-        if let Some(d) = differ(&a, &b) {
-            fail(&mut ctx, "replay", &base, &var, &d);
+        let at = comp::compile_ts(&base);
+        'rounds: for round in 0..6 {
+            let b = comp::compile_rasn(&var, &Cfg::default());
+            ctx.case(&format!("replay:rasn:{round}"), true);
+            if let Some(d) = differ(&a, &b) {
+                fail(&mut ctx, "replay", &base, &var, &d);
+                break 'rounds;
+            }
+            if matches!(at, Outcome::Ok(_)) {
+                let bt = comp::compile_ts(&var);
+                ctx.case(&format!("replay:typescript:{round}"), true);
+                if let Some(d) = differ(&at, &bt) {
+                    fail(&mut ctx, "replay(typescript)", &base, &var, &d);
+                    break 'rounds;
+                }
+            }
         }
         return ctx.finish();
     }
@@ -287,6 +301,80 @@ pub fn run(tier: Tier, seed: u64, replay: Option<String>) -> i32 {
                 ctx.class_n(&format!("leg:{}", leg.trim_end_matches(|c: char| c.is_ascii_digit() || c == '-')), 1);
                 if let Some(d) = d {
                     fail(&mut ctx, &leg, &base, &var, &d);
+                }
+            }
+        }
+    }
+    // ---- module sets in which one module imports several values (and nothing else) whose
+    // governing types are defined, and stay, in the exporting module: the compiler has to
+    // add those types to the importing module on its own. The same sources are compiled
+    // repeatedly, on one thread and on several, with both backends.
+    {
+        let n_ti = tier.pick(120, 1500);
+        let mut drv = Driver::new(seed, 114, 60);
+        let streams: Vec<Vec<u32>> = drv.draw(n_ti).iter().map(|t| t.current()).collect();
+        type TiRes = Vec<(String, Vec<String>, Option<String>)>;
+        let results: Vec<TiRes> = streams
+            .par_iter()
+            .map(|s| {
+                let mut src = Src::new(s);
+                let k = 2 + src.pick(5);
+                let stems = ["Alpha", "Bravo", "Delta", "Gamma", "Kappa", "Omega", "Sigma", "Theta"];
+                let first = src.pick(stems.len());
+                let mut defs = String::from("Ti-Defs DEFINITIONS AUTOMATIC TAGS ::= BEGIN\n");
+                let mut user = String::from("Ti-User DEFINITIONS AUTOMATIC TAGS ::= BEGIN\nIMPORTS ");
+                let mut uses = String::new();
+                for i in 0..k {
+                    let st = stems[(first + i) % stems.len()];
+                    let (ty, val) = [("INTEGER (0..100)", "7"), ("BOOLEAN", "TRUE"), ("OCTET STRING", "'0A'H"), ("INTEGER", "-3"), ("IA5String", "\"x\"")][src.pick(5)];
+                    defs.push_str(&format!("{st}-Type ::= {ty}\n{}-val {st}-Type ::= {val}\n", st.to_lowercase()));
+                    user.push_str(&format!("{}{}-val", if i > 0 { ", " } else { "" }, st.to_lowercase()));
+                    uses.push_str(&format!("u{i} {} ::= {}-val\n", ty.split(' ').next().unwrap_or("INTEGER").replace("OCTET", "OCTET STRING"), st.to_lowercase()));
+                }
+                defs.push_str("END\n");
+                user.push_str(&format!(" FROM Ti-Defs;\n{uses}Holder ::= SEQUENCE {{ n NULL }}\nEND\n"));
+                let sources = if src.chance(50) { vec![defs, user] } else { vec![user, defs] };
+                let mut out: TiRes = vec![];
+                for ts in [false, true] {
+                    let run = |srcs: &Vec<String>| if ts { comp::compile_ts(srcs) } else { comp::compile_rasn(srcs, &cfg) };
+                    let base = run(&sources);
+                    if !matches!(base, Outcome::Ok(_)) {
+                        continue;
+                    }
+                    let be = if ts { "typescript" } else { "rasn" };
+                    for _ in 0..5 {
+                        let again = run(&sources);
+                        out.push((format!("typed-imports-repeat:{be}"), sources.clone(), differ(&base, &again)));
+                    }
+                    let handles: Vec<_> = (0..4)
+                        .map(|_| {
+                            let t = sources.clone();
+                            let cfg2 = cfg.clone();
+                            std::thread::spawn(move || {
+                                comp::install_panic_hook();
+                                if ts { comp::compile_ts(&t) } else { comp::compile_rasn(&t, &cfg2) }
+                            })
+                        })
+                        .collect();
+                    for h in handles {
+                        let o = h.join().unwrap_or(Outcome::Panic("join".into()));
+                        out.push((format!("typed-imports-threads:{be}"), sources.clone(), differ(&base, &o)));
+                    }
+                }
+                out
+            })
+            .collect();
+        let mut sampled = false;
+        for res in results {
+            for (n, (leg, srcs, d)) in res.into_iter().enumerate() {
+                if !sampled {
+                    ctx.sample(json!({"typed_imports_input": srcs}));
+                    sampled = true;
+                }
+                ctx.case(&format!("{leg}:{n}:{}", srcs.join("\n")), true);
+                ctx.class_n(&format!("leg:{leg}"), 1);
+                if let Some(d) = d {
+                    fail(&mut ctx, &leg, &srcs, &srcs, &d);
                 }
             }
         }
